@@ -193,6 +193,12 @@ func runAU(c auCase) (fail string, stats map[string]bool) {
 			if len(newErrs) != 1 || newErrs[0] == nil || newErrs[0].CodeMessage == nil || newErrs[0].Code != *je.Code {
 				return fmt.Sprintf("%s: answered 400 %s, and %d connection_error events were emitted for it (want exactly one with code %d)", what, snap.Body, len(newErrs), *je.Code), stats
 			}
+			// which of the documented answers: a session that is gone is unknown (code 1), a session that lives on
+			// another transport by now makes this a bad request (code 3)
+			want := map[string]int{"sessionCloses": 1, "upgrade": 3}[c.Outcome]
+			if want != 0 && *je.Code != want {
+				return fmt.Sprintf("%s: answered %s, the documented answer here is code %d", what, snap.Body, want), stats
+			}
 		}
 	}
 	// the session goes on (unless it was closed), on its new transport after an upgrade
